@@ -356,16 +356,16 @@ func runC30(p *core.Prog, r *core.Report) {
 		{Name: "validated", Match: func(s core.Site) bool { return strings.HasSuffix(s.Name, "session/v2.Token).Validate") }, Comps: []core.Comp{{Result: -1, Kind: core.ErrNil}}},
 		core.G("authenticated", core.ErrNil, "internal/crypto.AuthenticateTokenV2"),
 	}})
-	r2 := r.Rule("C30.R2", "session V1: cached common check (decode, epoch, lifetime, signature) and per-request relation + verb", 9)
+	r2 := r.Rule("C30.R2", "session V1: cached common check (decode, signature) and, per request, the lifetime against the current epoch, the relation to the request and the verb", 9)
 	core.CheckSuccess(p, r2, core.SuccessRule{Fn: aclV2 + ".VerifySessionV1TokenMessage", ResultIdx: -1, MinReturns: 1, Guards: []core.Guard{
 		core.G("common-check", core.ErrNil, "(*internal/sessions.ObjectSessionsCache).AuthenticateTokenV1"),
+		{Name: "epoch-known", Match: func(s core.Site) bool { return strings.HasSuffix(s.Name, ").Epoch") }, Comps: []core.Comp{{Result: -1, Kind: core.ErrNil}}},
+		{Name: "not-expired", Match: func(s core.Site) bool { return strings.HasSuffix(s.Name, ").ExpiredAt") }, Comps: []core.Comp{{Result: -1, Kind: core.IsFalse}}},
+		{Name: "valid-at-epoch", Match: func(s core.Site) bool { return strings.HasSuffix(s.Name, ").ValidAt") }, Comps: []core.Comp{{Result: -1, Kind: core.IsTrue}}},
 		core.G("applies-to-request", core.ErrNil, aclV2+".verifySessionTokenAgainstRequest"),
 	}})
 	core.CheckSuccess(p, r2, core.SuccessRule{Fn: aclV2 + ".decodeAndVerifySessionTokenCommon", ResultIdx: -1, MinReturns: 1, Guards: []core.Guard{
 		{Name: "decoded", Match: func(s core.Site) bool { return strings.HasSuffix(s.Name, "session.Object).FromProtoMessage") }, Comps: []core.Comp{{Result: -1, Kind: core.ErrNil}}},
-		{Name: "epoch-known", Match: func(s core.Site) bool { return strings.HasSuffix(s.Name, ").Epoch") }, Comps: []core.Comp{{Result: -1, Kind: core.ErrNil}}},
-		{Name: "not-expired", Match: func(s core.Site) bool { return strings.HasSuffix(s.Name, ").ExpiredAt") }, Comps: []core.Comp{{Result: -1, Kind: core.IsFalse}}},
-		{Name: "valid-at-epoch", Match: func(s core.Site) bool { return strings.HasSuffix(s.Name, ").ValidAt") }, Comps: []core.Comp{{Result: -1, Kind: core.IsTrue}}},
 		core.G("authenticated", core.ErrNil, "internal/crypto.AuthenticateToken"),
 	}})
 	core.CheckSuccess(p, r2, core.SuccessRule{Fn: aclV2 + ".verifySessionTokenAgainstRequest", ResultIdx: -1, MinReturns: 1, Guards: []core.Guard{
@@ -452,9 +452,9 @@ func runC30(p *core.Prog, r *core.Report) {
 		r4.Check(ok, name+"#cache-key", p.Pos(fn.Pos()), "cache key = sha256(MarshalStable(token))", "the token check cache is not keyed by the digest of the whole marshalled token")
 	}
 	// ---- R6 what is cached is a function of the key
-	r6 := r.Rule("C30.R6", "the verdict cached under a token's digest depends on that token only: on-miss callbacks capture the token and services, and the cached part of the V2 check reads no clock", 5)
-	if n := sessionCacheOnMissPurity(p, r6, p.FuncsIn("pkg/services/object/acl/v2")); n < 2 {
-		r.Fatalf("C30.R6: expected 2 sessions-cache call sites in acl/v2, found %d", n)
+	r6 := r.Rule("C30.R6", "the verdict cached under a token's digest depends on that token only, at every user of the shared sessions cache (the access service and the object format validation write under the same key): on-miss callbacks capture the token and services, and the cached part reads neither a clock nor the current epoch", 9)
+	if n := sessionCacheOnMissPurity(p, r6, append(p.FuncsIn("pkg/services/object/acl/v2"), p.FuncsIn("internal/crypto")...)); n < 4 {
+		r.Fatalf("C30.R6: expected 4 sessions-cache call sites (2 in acl/v2, 2 in internal/crypto), found %d", n)
 	}
 	// ---- R7 the whole delegation chain is authenticated
 	r7 := r.Rule("C30.R7", "AuthenticateTokenV2 returns nil only if the token has no origin or the SAME check (recursion) passed for its origin: every link of a delegation chain down to the root is signature- and issuer-checked", 2)
@@ -500,8 +500,8 @@ func runC30(p *core.Prog, r *core.Report) {
 		r.Fatalf("C30.R7: no instantiation of AuthenticateTokenV2 found")
 	}
 	// ---- R5 purge wiring
-	r5 := r.Rule("C30.R5", "the epoch-based token-check caches are purged from the node's new-epoch handler", 2)
-	for _, sink := range []string{aclV2 + ".ResetTokenCheckCache", "(*internal/sessions.ObjectSessionsCache).ResetCache"} {
+	r5 := r.Rule("C30.R5", "the epoch-based token-check cache (bearer tokens: their epoch checks are part of the cached verdict) is purged from the node's new-epoch handler", 1)
+	for _, sink := range []string{aclV2 + ".ResetTokenCheckCache"} {
 		n := 0
 		for _, s := range core.CallSites(p.FuncsIn("cmd/neofs-node"), func(s core.Site) bool { return s.Name == sink }) {
 			n++
@@ -510,8 +510,8 @@ func runC30(p *core.Prog, r *core.Report) {
 		r5.Check(n > 0, "cmd/neofs-node#"+sink, "-", "purged on new epoch", "nothing in cmd/neofs-node purges this cache: an epoch-based verdict would outlive its epoch")
 	}
 	// ---- R8 the purge drops every verdict
-	r8 := r.Rule("C30.R8", "the functions the new-epoch handler calls drop EVERY cached verdict: each calls Purge of its LRU cache unconditionally (a positive verdict includes the epoch checks of the epoch it was computed in, so keeping positives lets a token outlive its expiration for as long as it stays in the cache)", 2)
-	for _, name := range []string{aclV2 + ".ResetTokenCheckCache", "(*internal/sessions.ObjectSessionsCache).ResetCache"} {
+	r8 := r.Rule("C30.R8", "the purge the new-epoch handler calls for the bearer-token cache drops EVERY cached verdict: Purge of the LRU cache is called unconditionally (a positive verdict includes the epoch checks of the epoch it was computed in, so keeping positives lets a token outlive its expiration for as long as it stays in the cache); the sessions cache holds epoch-free verdicts only (R6) and needs no purge for correctness", 1)
+	for _, name := range []string{aclV2 + ".ResetTokenCheckCache"} {
 		fn := p.Func(name)
 		if fn == nil {
 			r.Fatalf("C30.R8: %s not found", name)
@@ -533,7 +533,7 @@ func runC30(p *core.Prog, r *core.Report) {
 		}
 		r8.Check(okp, name+"#purges-all", p.Pos(fn.Pos()), "the whole cache is purged on every path", name+" no longer purges its whole cache unconditionally: verdicts computed under an earlier epoch's 'not expired / already valid' checks survive the epoch change")
 	}
-	r.Explain += " (R8) the two functions the new-epoch handler calls purge their whole LRU cache on every path; selective cleaning (e.g. dropping only failures) would keep positive verdicts whose epoch checks were made in an earlier epoch."
+	r.Explain += " (R8) ResetTokenCheckCache purges the whole bearer-token LRU cache on every path; selective cleaning (e.g. dropping only failures) would keep positive verdicts whose epoch checks were made in an earlier epoch. The sessions cache is shared between the access service and the object format validation and, by R6, holds nothing that depends on the epoch."
 }
 
 // incompleteHeadersOnlyWhereRechecked: in (*cfg).readObjectHeaders, no store to headerSource.incompleteObjectHeaders is
